@@ -8,8 +8,9 @@
     [f] is the instruction [first] points to, the head of [rest] is what [second] points to, the
     iterator's remaining input is the tail of [rest], [mid] are the (non-instruction) lines the
     walk has already skipped between the two.  Removed instructions become [Dummy], exactly as in
-    the code.  Nothing is tidied up: knowledge kept across inline lines, flags knowledge touched
-    only by loads and compares, etc. are all reproduced. *)
+    the code.  Nothing is tidied up.  (The model follows the repaired code: inline assembly is a
+    barrier like a label; INC/DEC/shifts on memory kill memory knowledge; N/Z knowledge is
+    cleared by index and memory read-modify-write instructions.) *)
 From Coq Require Import String Ascii List Bool NArith.
 From CC Require Import Base.Str Asm.Lines.
 Import ListNotations.
@@ -139,10 +140,10 @@ Definition transfer (k : know) (i : instr) (ahead : list line) : know * bool :=
       let rs := if opt_eqb y o then negb (i_prot i) else false in
       (mkK (kill_if ends_y a) (kill_if ends_y x) (Some o) FY, rs)
   | DEC | INC =>
-      let kl := kill_if (fun v => String.eqb v o) in
-      (mkK (kl a) (kl x) (kl y) fl, false)
-  | INX | DEX => (mkK (kill_if ends_x a) None (kill_if ends_x y) fl, false)
-  | INY | DEY => (mkK (kill_if ends_y a) (kill_if ends_y x) None fl, false)
+      let kl := kill_if (fun v => negb (is_imm v)) in
+      (mkK (kl a) (kl x) (kl y) FUnknown, false)
+  | INX | DEX => (mkK (kill_if ends_x a) None (kill_if ends_x y) FUnknown, false)
+  | INY | DEY => (mkK (kill_if ends_y a) (kill_if ends_y x) None FUnknown, false)
   | TAX =>
       let '(a', x') := match a with
                        | Some v => if ends_x v then (None, None) else (a, a)
@@ -160,7 +161,12 @@ Definition transfer (k : know) (i : instr) (ahead : list line) : know * bool :=
   | STA | STX | STY =>
       let kl := kill_if (fun v => negb (is_imm v)) in
       (mkK (kl a) (kl x) (kl y) fl, false)
-  | ADC | SBC | EOR | AND | ORA | LSR | ASL | PLA | PHA => (mkK None x y fl, false)
+  | LSR | ASL | ROL | ROR =>
+      if String.eqb o "" then (mkK None x y fl, false)
+      else
+        let kl := kill_if (fun v => negb (is_imm v)) in
+        (mkK (kl a) (kl x) (kl y) FUnknown, false)
+  | ADC | SBC | EOR | AND | ORA | PLA | PHA => (mkK None x y fl, false)
   | JSR | JMP => (mkK None None None fl, false)
   | CPX | CPY | CMP => (mkK a x y FUnknown, false)
   | _ => (k, false)
@@ -208,9 +214,10 @@ Fixpoint step_second (pre : list line) (f : instr) (mid : list line) (rest : lis
   match rest with
   | [] => finish pre (Ins f :: rev mid) n
   | Ins _ :: _ => Next (mkZ pre f mid rest k n)
-  | Lbl l :: r =>
-      (* restart after the label: first := next Instruction; knowledge reset *)
-      let pre' := Lbl l :: mid ++ Ins f :: pre in
+  | (Lbl _ | Inl _ _) as b :: r =>
+      (* restart after the label (or the inline-assembly line, a barrier): first := next
+         Instruction; knowledge reset *)
+      let pre' := b :: mid ++ Ins f :: pre in
       (fix find (pre : list line) (r : list line) {struct r} : step_result :=
          match r with
          | [] => finish pre [] n
